@@ -386,6 +386,12 @@ func GenOpsP(rt *rapid.T, model map[string][]byte, used *[]string, n, maxBytes, 
 			}
 			continue
 		}
+		if len(live) > 0 && gen.Chance(rt, 6, label+"_rere") {
+			// a live key goes and comes straight back with the value it had
+			p := gen.Pick(rt, live, label+"_rk")
+			ops = append(ops, Op{Kind: "del", Path: p}, Op{Kind: "ins", Path: p, Val: fmt.Sprintf("%x", model[p])})
+			continue
+		}
 		if gen.Chance(rt, 3, label+"_full") {
 			// a complete branch that also holds a value: a key and sixteen longer keys, one under every slot; the
 			// prefix key itself comes last or first, and later operations find all of them among the used paths
